@@ -534,7 +534,7 @@ func C01(e *core.Env) {
 	res := e.Res
 	res.Rule = "cases = (formula, graph); every target node of the graph is a truth assignment / value configuration and its verdict is compared with the extracted model (parser + failure DNF + atom snippets) and with the classical semantics; " +
 		"streams: skeleton (all formulas with <= 2 (quick) / <= 3 (thorough) connectives over 3 single-valued atoms, count and `in` flavours, x all 8 assignments), quantifier (nested/atLeast/atMost, k=0..3, under not/or/if, nested in each other; several quantified constraints under different keys of ONE propertyConstraints mapping, plain and under not / if), " +
-		"atom (every documented constraint kind x value sets of size 0..2 x both polarities), random (depth <= 5 / 7, width <= 4), while-others-compile (random and quantifier formulas validated in small batches while three goroutines translate another profile), history (12 random formulas written over the built-in prefix `core` instead of a declared prefix, validated before and after another profile that rebinds core / data / doc / shacl / apiContract / ex was compiled and run); non-trivial = the formula reports at least one target node and spares at least one; distinct by formula text"
+		"atom (every documented constraint kind x value sets of size 0..2 x both polarities; two constraints of one kind - e.g. two property-pair comparisons on one node - under or / and / if / or-not), random (depth <= 5 / 7, width <= 4), while-others-compile (random and quantifier formulas validated in small batches while three goroutines translate another profile), history (12 random formulas written over the built-in prefix `core` instead of a declared prefix, validated before and after another profile that rebinds core / data / doc / shacl / apiContract / ex was compiled and run); non-trivial = the formula reports at least one target node and spares at least one; distinct by formula text"
 
 	// ---- (i) skeleton stream
 	k := 3
@@ -833,6 +833,28 @@ func C01(e *core.Env) {
 	acases := []c01case{}
 	for _, a := range atoms {
 		acases = append(acases, c01case{fAtom(a), "atom+" + a.Kind}, c01case{fNot(fAtom(a)), "atom-" + a.Kind})
+	}
+	// two constraints of ONE kind in one validation (or / and / if / or-not), e.g. two property-pair comparisons on one node
+	byKind := map[string][]FAtom{}
+	for _, a := range atoms {
+		byKind[a.Kind] = append(byKind[a.Kind], a)
+	}
+	byKind["cmp"] = append(byKind["cmp"], FAtom{Kind: "cmp", Q: "lt", Path: pq, Path2: pp})
+	pairKinds := []string{}
+	for kd := range byKind {
+		pairKinds = append(pairKinds, kd)
+	}
+	sort.Strings(pairKinds)
+	for _, kd := range pairKinds {
+		as := byKind[kd]
+		for _, ij := range [][2]int{{0, 1}, {1, len(as) - 1}, {0, len(as) - 1}} {
+			if ij[0] == ij[1] || ij[1] >= len(as) || (e.Quick() && kd != "cmp" && ij[0] == 1) {
+				continue
+			}
+			a1, a2 := fAtom(as[ij[0]]), fAtom(as[ij[1]])
+			acases = append(acases, c01case{fOr(a1, a2), "pair-or-" + kd}, c01case{fAnd(a1, a2), "pair-and-" + kd},
+				c01case{fIf(a1, a2), "pair-if-" + kd}, c01case{fOr(fNot(a1), a2), "pair-ornot-" + kd})
+		}
 	}
 	res.Sample(map[string]any{"stream": "atom", "formula": acases[len(acases)-1].f.String(), "nodes": len(ag.Nodes)})
 	runC01(e, ag, acases, "a", 30)
